@@ -430,9 +430,9 @@ function onPathCall(ctx, st, method, a) {
       if (!ctx.quiet) ctx.log.push(`R.${method} ${st.tag} ${name} general=${enc(p)}`)
       checkGeneralPath(ctx, st, method + ':' + name, p, value)
     }
-    if (ctx.expectNoPath && typeof value !== 'function' && p) {
-      c11Violation(ctx, 'path_for_non_function', `R.${method} ${name}: a general l-value path ${enc(p)} was given for a non-function value ${enc(value)}`)
-    }
+    // (a path for a value that is not a function - a module object, a constant member - is not
+    // forbidden by the property: a pure access chain into a script has a script path; what the
+    // path must name is checked by checkGeneralPath above)
   }
 }
 
@@ -581,6 +581,12 @@ function serListeners(n) {
   }
   add(et.listeners, '')
   add(et.captureListeners, 'capture:')
+  // the l-value paths the generated code passed last for the event bindings of this element
+  const rec = CTX && CTX.evBindings.get(n)
+  if (rec && any) {
+    const paths = [...rec.values()].filter((r) => r.path !== undefined && r.path !== null).map((r) => r.ev + '@' + enc(r.path))
+    if (paths.length) out['@paths'] = paths.sort()
+  }
   return any ? sorted() : undefined
 }
 
